@@ -152,6 +152,8 @@ pub struct BrokerCfg {
     pub mute_pingresp: bool,
     /// How many owed answers may be withheld entirely (keep-alive family): PINGRESP optional.
     pub pingresp_optional: bool,
+    /// Deterministic responsive broker: only the first enabled emission is ever offered.
+    pub fifo: bool,
 }
 
 impl Default for BrokerCfg {
@@ -173,6 +175,7 @@ impl Default for BrokerCfg {
             reorder_window: 4,
             mute_pingresp: false,
             pingresp_optional: false,
+            fifo: false,
         }
     }
 }
@@ -218,6 +221,23 @@ pub struct Cfg {
     pub prune: bool,
     /// properties whose monitors are active
     pub props: Vec<&'static str>,
+    /// compare every deviating execution with its benign twin (same program, default environment)
+    pub twin: Option<Twin>,
+    /// offer cancellation inside connect() as well
+    pub cancel_connect: bool,
+    /// when set, cancellation is offered only inside these operations
+    pub cancel_only: Option<Vec<OpK>>,
+    /// the benign continuation goes on until the broker has sent its whole script
+    pub drain_script: bool,
+}
+
+#[derive(Copy, Clone, Debug, PartialEq, Eq)]
+pub enum Twin {
+    /// C13: executions containing a cancellation vs. the uncancelled program (or the program without
+    /// the cancelled request when nothing of it was enqueued or offered)
+    Cancel,
+    /// C15: executions with partial / pending transport answers vs. the unfragmented run
+    Fragment,
 }
 
 impl Cfg {
@@ -249,6 +269,10 @@ impl Cfg {
             watchdog_calls: 4000,
             prune: true,
             props: vec![],
+            twin: None,
+            cancel_connect: true,
+            cancel_only: None,
+            drain_script: false,
         }
     }
     pub fn has(&self, p: &str) -> bool {
